@@ -93,6 +93,15 @@ def main():
         with ThreadPoolExecutor(max_workers=jobs) as ex:
             for p, r in ex.map(one, props[1:]):
                 results[p] = r
+        # the harness is edited by several hands: a harness build failure may be a half-saved edit, not the patch;
+        # re-run those properties once after a pause before believing it
+        bad = [p for p, r in results.items() if any("cargo build of the harness" in w for w in r["why"])]
+        if bad:
+            print("harness build failed for", bad, "- retrying once in 150 s", flush=True)
+            time.sleep(150)
+            for p in bad:
+                q, r = one(p)
+                results[q] = r
     finally:
         sh(["git", "-C", "/repo", "checkout", "--", "."])
     rp = os.path.join(d, "result.json")
